@@ -48,6 +48,9 @@ struct Inode {
   bool created = false;     // created during the run by open(O_CREAT)
   bool closed_ok = false;   // last writing descriptor was closed successfully
   unsigned open_wr = 0;     // number of open writing descriptors
+  int64_t visible = -1;     // "growing file" fault: only this many bytes exist (stat size, readable) until read #grow_at on the file, or
+  int grow_at = 0;          // until a read would otherwise report end of file - then all of `data` is there.  -1: not growing
+  unsigned reads = 0;
 };
 
 enum { K_FILE = 0, K_PIPE, K_TTY, K_NULL };
@@ -158,6 +161,7 @@ struct Result {
   uint64_t hash = 0;            // full history hash
   uint64_t ihash = 0;           // hash of (class, op) projection of the schedule
   uint64_t preemptions = 0;     // decisions that switched away from an enabled current fiber
+  uint32_t file_grew = 0;       // "growing input file" faults that took effect
   uint32_t stalls_fired = 0;    // stall faults that took effect
   uint64_t inregion_points = 0, inregion_preemptions = 0;   // "preempt" variant: decision points offered inside unsynchronised code / those that switched threads
   unsigned max_live_fibers = 0;
